@@ -656,6 +656,8 @@ func (s *UDPSession) SetRateLimit(bytesPerSecond uint32) {
 
 // SetLogger configures the kcp trace logger
 func (s *UDPSession) SetLogger(mask KCPLogType, logger logoutput_callback) {
+	s.mu.Lock()
+	defer s.mu.Unlock()
 	s.kcp.SetLogger(mask, logger)
 }
 
